@@ -183,6 +183,11 @@ class BndEval:
                 if a[0] and b[0]:
                     return True, a[1]
                 return False, (a[1] if not a[0] else b[1])
+            if (c.get("fn") == "std::iter::Iterator::count") and "TakeWhile<std::str::Chars" in " ".join(c.get("targs", [])):
+                # number of leading chars satisfying an ASCII-only predicate == number of leading bytes
+                if self.chars_src(c["args"][0], S) and self.ascii_only_predicate(c):
+                    return True, "count of leading ASCII chars of the same string"
+                return False, "count() of a char prefix that may contain multi-byte chars"
             if re.search(r"Iterator::position$|::position$", res):
                 return False, "Iterator::position() (an element count, not a byte offset)"
             return False, "result of %s" % res.split("::")[-1]
@@ -422,6 +427,41 @@ class BndEval:
                 return True
         return False
 
+    def chars_src(self, op, S, depth=0):
+        l = op_local(op)
+        if l is None or depth > 8:
+            return False
+        for d in self.f.whole_defs(l):
+            if d[0] == "call":
+                c = d[2]
+                if (c.get("res") or "").endswith("<impl str>::chars"):
+                    return self.strid(c["args"][0]) == S
+                if c["args"] and self.chars_src(c["args"][0], S, depth + 1):
+                    return True
+            if d[0] == "assign" and d[3][0] == "use" and self.chars_src(d[3][1], S, depth + 1):
+                return True
+        return False
+
+    def ascii_only_predicate(self, call):
+        """every closure in the adaptor chain only compares its char parameter with ASCII char constants"""
+        ok_any = False
+        for cid, loc in call.get("clos", []):
+            cf = self.crate.fns.get(cid)
+            if cf is None:
+                return False
+            if [1 for _b, c2 in cf.calls() if not c2["span"][4].startswith("macro:")]:
+                return False
+            cmps = [(rv[2], rv[3]) for _b, _s, _p, rv, _sp in cf.assigns() if rv[0] == "bin" and rv[1] in ("Eq", "Ne")]
+            if not cmps:
+                return False
+            for a, b in cmps:
+                ks = [op_const(x) for x in (a, b)]
+                ks = [k for k in ks if k is not None]
+                if len(ks) != 1 or ks[0].get("t") != "char" or int(ks[0].get("v", "999")) >= 128:
+                    return False
+            ok_any = True
+        return ok_any
+
     def guarded_prefix(self, S, k):
         """a dominating `S.starts_with(<ASCII literal/char of >= k bytes>)` true edge"""
         f = self.f
@@ -546,6 +586,7 @@ def r7_unwrap(ctx):
                       "only follows another panic) or listed in the reviewed table with the reason it cannot fail")
     crate = ctx.bin
     n = 0
+    sites = []
     for f in crate.real_fns():
         for bb, c in f.calls():
             res = c.get("res") or ""
@@ -558,13 +599,22 @@ def r7_unwrap(ctx):
             n += 1
             recv = _origin_res(f, c["args"][0]) if c["args"] else None
             what = "%s on %s" % (res.split("::")[-1], (recv or "?").split("::")[-1] if recv else "?")
-            key = "R7c|%s|%s" % (f.id, what)
-            if recv and re.search(r"sync::Mutex::<T>::lock$|sync::RwLock::<T>::(read|write)$", recv):
-                r.ok(sample={"unwrap": key, "accepted": "lock poisoning"} if len(r.samples) < 2 else None)
-            elif key in REVIEWED:
-                r.review(key, REVIEWED[key])
-            else:
-                r.violate(key, "%s at %s can panic and is not in the reviewed table" % (what, crate.span_str(c["span"])))
+            sites.append((f, c, recv, what))
+    # a reviewed site may move to another function (extract-function refactoring): it is recognised by *what* it unwraps
+    # as long as the number of such sites in the crate does not exceed the number of reviewed entries for it
+    from collections import Counter
+    reviewed_what = Counter(k.split("|", 2)[2] for k in REVIEWED if k.startswith("R7c|"))
+    seen_what = Counter(w for _f, _c, _r, w in sites)
+    for f, c, recv, what in sites:
+        key = "R7c|%s|%s" % (f.id, what)
+        if recv and re.search(r"sync::Mutex::<T>::lock$|sync::RwLock::<T>::(read|write)$", recv):
+            r.ok(sample={"unwrap": key, "accepted": "lock poisoning"} if len(r.samples) < 2 else None)
+        elif key in REVIEWED:
+            r.review(key, REVIEWED[key])
+        elif reviewed_what.get(what) and seen_what[what] <= reviewed_what[what]:
+            r.review(key, "moved: same construct as the reviewed `%s` site (count unchanged)" % what)
+        else:
+            r.violate(key, "%s at %s can panic and is not in the reviewed table" % (what, crate.span_str(c["span"])))
     r.counts["unwrap_sites"] = n
     r.floor("unwrap/expect sites", n, 10)
     return r
